@@ -285,9 +285,18 @@ func (k *Keys) ReadKey() (key rune, isAbort bool) {
 		key = []rune(string(buf))[0]
 	default:
 		// No key can be read when the input ended or failed: abort.
-		buf, err := k.readInputFiltered()
-		if err != nil || len(buf) == 0 {
-			return 0, true
+		// A read with no key in it only held the answer of the terminal
+		// to a cursor position query (made by a resize, or by a print
+		// of the application, redisplaying meanwhile): keep reading.
+		var buf []byte
+
+		for len(buf) == 0 {
+			var err error
+
+			buf, err = k.readInputFiltered()
+			if err != nil {
+				return 0, true
+			}
 		}
 
 		// Only the first key is ours: the others, read
